@@ -382,6 +382,25 @@ example : simplifyConditionals .none (.case (.cons (.iff (.bool false) (.int 1) 
     (.cons (.iff (.bool true) (.int 2) .absent) .nil)) .absent)
     = .case (.cons (.iff (.bool true) (.int 2) .absent) .nil) .absent := by decide
 
+-- the mirror iterates like the Python for-loop over the list it pops from: the branch right after a popped one is SKIPPED
+-- (kept unexamined), which is why `WHEN TRUE` in third place does not collapse the CASE here …
+example : simplifyConditionals .none (.case (.cons (.iff (.bool false) (.int 10) .absent) (.cons (.iff (.bcol 0 false) (.int 20) .absent)
+    (.cons (.iff (.bool true) (.int 30) .absent) .nil))) .absent)
+    = .case (.cons (.iff (.bcol 0 false) (.int 20) .absent) (.cons (.iff (.bool true) (.int 30) .absent) .nil)) .absent := by decide
+-- … and a constant-false branch in the skipped position survives this pass (the fixpoint driver removes it next time)
+example : simplifyConditionals .none (.case (.cons (.iff (.bool false) (.int 10) .absent) (.cons (.iff (.bool false) (.int 20) .absent)
+    (.cons (.iff (.bcol 0 false) (.int 30) .absent) .nil))) .absent)
+    = .case (.cons (.iff (.bool false) (.int 20) .absent) (.cons (.iff (.bcol 0 false) (.int 30) .absent) .nil)) .absent := by decide
+
+/-- why the identity test `case is ifs[0]` cannot be replaced by a "some earlier branch was visited" flag: the loop pops from
+    the list it iterates, so the branch after a popped one is never visited and never sets the flag (`caseLoopFlag`):
+    `CASE WHEN FALSE THEN 10 WHEN b THEN 20 WHEN TRUE THEN 30 END → 30`, wrong when `b` is TRUE -/
+theorem simplify_conditionals_flag_skips_after_pop :
+    ∃ ifs env, caseLoopFlag .none .absent (listLen ifs + 1) false [] ifs = .int 30 ∧
+      eval env (caseLoopFlag .none .absent (listLen ifs + 1) false [] ifs) ≠ eval env (.case ifs .absent) :=
+  ⟨.cons (.iff (.bool false) (.int 10) .absent) (.cons (.iff (.bcol 0 false) (.int 20) .absent) (.cons (.iff (.bool true) (.int 30) .absent) .nil)),
+   ⟨fun _ => some true, fun _ => none⟩, by decide, by decide⟩
+
 /-- why the "first remaining branch" test is needed: the unrepaired loop (`firstOnly = false`, the code before
     9cbbc29) turns `CASE WHEN b THEN 1 WHEN TRUE THEN 2 END` into `2`, wrong when `b` is TRUE -/
 theorem simplify_conditionals_needs_first_branch :
